@@ -112,6 +112,10 @@ func NewMultiEndpoint(b *MultiEndpointOptions) (MultiEndpoint, error) {
 		switchingDelay:  b.SwitchingDelay,
 		current:         b.Endpoints[0],
 	}
+	// Creating an endpoint may start its recovery timer. The timer's callback takes the lock, so holding the
+	// lock here keeps it from running on a MultiEndpoint whose endpoints are not all in place yet.
+	me.Lock()
+	defer me.Unlock()
 	eMap := make(map[string]*endpoint)
 	for i, e := range b.Endpoints {
 		eMap[e] = me.newEndpoint(e, i)
